@@ -300,6 +300,8 @@ func runC09(r *Run) {
 	} else {
 		r.Bad("R2", "anchor/ComputeClawback", "", "not found")
 	}
+	r.Rule("R16", "see C08 R3 (imported): the one place where Haqq code calls the SDK staking keeper's Delegate directly (the 'stake' option of ConvertIntoVestingAccount, no unvested-coins check) bonds exactly what the *new grant's own* schedule has vested at the block time — ReadSchedule over the message's vesting periods — and not what the stored account reports as vested after the merge: the account's vested coins include earlier grants' coins that may have left the balance, so unvested coins of the new grant would be bonded and a later clawback cannot be paid")
+	r.Import("R16/C08.", []string{"R3"}, runC08)
 	r.Rule("R6", "FLOW.endtime (same rule code as C08 R6): every store to a vesting account's EndTime depends on both the lockup and the vesting schedule — ReadSchedule returns the full amount from EndTime on, so an end taken from one schedule ends the other's lock early (the account is no longer valid)")
 	checkEndTimeStores(r, "R6")
 	// R4
